@@ -1,18 +1,19 @@
 ----------------------------- MODULE Pdu_Trace -----------------------------
 (* Code -> spec: executions of the real code are validated against Pdu.
 
-   "req"  the driver called ble_request / _write_pdu with a body of n bytes and fragment size p; the
-          record lists what an independent reader saw in every GATT write (bytes on the air, the AEAD
-          counter under which it opened (999999 = it did not open under the accessory's counter),
-          header kind, control byte, whether tid / opcode+iid were the requested ones, which body
-          range the payload equals).  The specification's accessory (AccRecv) is run on these
-          fragments: BleFragmentSize and BleReassembly decide.
-   "resp" the scripted accessory fragmentation / fault is the input; the record holds what _read_pdu
-          did (returned or raised, status, whether the body is the accessory's, number of reads, AEAD
-          counter afterwards); accepted iff the specification's reader ends the same way.
+   "req"  the driver called ble_request with a body of n bytes on a characteristic whose negotiated
+          size makes the fragment size p; the record lists what an independent reader saw in every
+          GATT write (header kind, control byte, which body range the payload equals, declared
+          length, the AEAD counter under which it opened (999999 = it did not open under the
+          accessory's counter), whether tid / opcode+iid were the requested ones, bytes on the
+          air).  The specification's accessory (AccRecv) is run on these fragments:
+          BleFragmentSize and BleReassembly decide.
+   "resp" the scripted accessory fragmentation / fault is the input; the record holds what the real
+          reader did (returned or raised, status, whether the body is the accessory's, number of
+          reads, AEAD counter afterwards); accepted iff the specification's reader ends the same way.
    "coap" input = item outcomes + the transaction ids the real encode_all_pdus put into the request;
-          the record holds the result vector (per item: kind, status, which item's body it is). *)
-EXTENDS Pdu, Json, IOUtils
+          the record holds the result vector (per item: ok + which item's body / per-item error). *)
+EXTENDS Pdu, Json, IOUtils, SequencesExt
 
 Recs == ndJsonDeserialize(IOEnv.TRACE_FILE)
 
@@ -25,42 +26,66 @@ ToFrags(r) == [k \in 1..Len(r.frags) |->
                  [hdr |-> f[1], ctl |-> f[2], lo |-> f[3], len |-> f[4], declared |-> f[5], ctr |-> f[6],
                   tidok |-> B(f[7]), idok |-> B(f[8]), alen |-> f[9]]]
 ToItems(r) == [k \in 1..Len(r.items) |-> [oc |-> r.items[k][1], s |-> r.items[k][2], len |-> r.items[k][3]]]
+CaseOf(r) ==
+    CASE r.part = "req"  -> [part |-> "req", p |-> r.p, enc |-> r.enc, n |-> r.n, ctr0 |-> r.ctr0]
+      [] r.part = "resp" -> [part |-> "resp", m |-> r.m, st |-> r.st, short |-> r.short, split |-> r.split, fault |-> r.fault,
+                             fpos |-> r.fpos, enc |-> r.enc, ctr0 |-> r.ctr0]
+      [] r.part = "coap" -> [part |-> "coap", items |-> ToItems(r)]
 
 TInit ==
     /\ tid \in 1..Len(Recs)
     /\ LET r == Recs[tid] IN
        CASE r.part = "req" ->
-              /\ cs = [part |-> "req", p |-> r.p, enc |-> r.enc, n |-> r.n, ctr0 |-> r.ctr0]
+              /\ cs = CaseOf(r)
               /\ pc = "write" /\ frags = ToFrags(r) /\ eoff = r.n /\ kctr = r.ctr0 + r.enc * Len(r.frags) /\ air = << >>
               /\ acc = [NullAcc EXCEPT !.ctr = r.ctr0] /\ rd = NullRd /\ co = NullCo
-         [] r.part = "resp" ->
-              RespInit([part |-> "resp", m |-> r.m, st |-> r.st, short |-> r.short, split |-> r.split, fault |-> r.fault,
-                        fpos |-> r.fpos, enc |-> r.enc, ctr0 |-> r.ctr0])
+         [] r.part = "resp" -> RespInit(CaseOf(r))
          [] r.part = "coap" ->
-              /\ cs = [part |-> "coap", items |-> ToItems(r)]
+              /\ cs = CaseOf(r)
               /\ pc = "decode" /\ frags = << >> /\ eoff = 0 /\ kctr = 0 /\ air = << >>
               /\ acc = NullAcc /\ rd = NullRd /\ co = [NullCo EXCEPT !.req = r.reqtids]
 TNext == Next /\ UNCHANGED tid
 TSpec == TInit /\ [][TNext]_tvars
 
 \* the real reader ended as the specification's reader does
-RespConforms ==
-    (cs.part = "resp" /\ pc \in {"done", "rejected"}) =>
-        LET r == Recs[tid] IN
-        /\ r.out = pc
-        /\ pc = "done" => r.status = rd.status /\ r.bodyok = 1
-        /\ r.reads = rd.next - 1
-        /\ r.kctr = kctr
-\* the reader never hangs: the specification's reader always terminates on these inputs
-RespTerminates == (cs.part = "resp" /\ pc = "more") => rd.next <= NFrags
+RespSame(r, p, k, d) == /\ r.out = p
+                        /\ p = "done" => r.status = d.status /\ r.bodyok = 1
+                        /\ r.reads = d.next - 1
+                        /\ r.kctr = k
+RespConforms == (cs.part = "resp" /\ pc \in {"done", "rejected"}) => RespSame(Recs[tid], pc, kctr, rd)
 \* the real batch decoder produced the specified result vector
-CoapConforms ==
-    (cs.part = "coap" /\ pc = "done") =>
-        LET r == Recs[tid] IN
-        /\ Len(r.res) = Len(co.res)
-        \* (the numeric code of a per-item error is not prescribed: every failure kind is recorded as "fail")
-        /\ \A i \in 1..Len(co.res) :
-              r.res[i] = IF co.res[i].k = "ok" THEN <<"ok", 0, co.res[i].item, co.res[i].len>> ELSE <<"fail", 0, 0, 0>>
+\* (the numeric code of a per-item error is not prescribed: every failure kind is recorded as "fail")
+CoapSame(r, res) ==
+    /\ Len(r.res) = Len(res)
+    /\ \A i \in 1..Len(res) : r.res[i] = IF res[i].k = "ok" THEN <<"ok", 0, res[i].item, res[i].len>> ELSE <<"fail", 0, 0, 0>>
+CoapConforms == (cs.part = "coap" /\ pc = "done") => CoapSame(Recs[tid], co.res)
 \* the request carried one item per requested characteristic
-CoapRequestShape == cs.part = "coap" => Len(co.req) = NItems
+CoapRequestShape == cs.part = "coap" => Len(co.req) = Len(cs.items)
+
+\* ---------------------------------------------------------------------- every rejected record at once
+\* (the invariants stop at the first one).  Whole runs as functions of the same step operators.
+RECURSIVE AccRun(_, _, _, _), RdRun(_, _), CoRun(_, _)
+AccRun(c, fs, k, a) == IF k > Len(fs) THEN a ELSE AccRun(c, fs, k + 1, AccStep(c, a, fs[k]))
+RdRun(c, r) == IF RdEnabled(c, r) THEN RdRun(c, RdStep(c, r)) ELSE r
+CoRun(c, d) == IF d.pc = "decode" THEN CoRun(c, CoStep(c, d)) ELSE d
+
+Accepted(r) ==
+    LET c == CaseOf(r) IN
+    CASE r.part = "req" ->
+           LET fs == ToFrags(r) IN
+           /\ \A k \in 1..Len(fs) : fs[k].alen <= c.p + TAG * c.enc
+           /\ AccAccepts(c, AccRun(c, fs, 1, [NullAcc EXCEPT !.ctr = c.ctr0]))
+      [] r.part = "resp" ->
+           LET f == RdRun(c, [pc |-> "first", kctr |-> c.ctr0, rd |-> NullRd]) IN
+           /\ f.pc \in {"done", "rejected"}
+           /\ RespSame(r, f.pc, f.kctr, f.rd)
+      [] r.part = "coap" ->
+           /\ Len(r.reqtids) = Len(c.items)
+           /\ LET d == CoRun(c, [pc |-> "decode", co |-> [NullCo EXCEPT !.req = r.reqtids]]) IN
+                d.pc = "done" /\ Attributed(c, d.co.res) /\ CoapSame(r, d.co.res)
+
+ExportVerdicts ==
+    /\ TLCGet("stats").generated >= 0
+    /\ ndJsonSerialize(IOEnv.VERDICTS_OUT,
+          SelectSeq([k \in 1..Len(Recs) |-> [tid |-> k, ok |-> Accepted(Recs[k])]], LAMBDA v : ~v.ok))
 =============================================================================
